@@ -3,10 +3,12 @@
    get_full_class_name are Gen/JsonResolve.v, regenerated from the source on every run.
    Quantifiers: every value of the grammar (any list nesting, any mix of classes, any payload type P), every world of
    classes, every user to_json/_from_json pair and registered (de)serialiser pair meeting the per-class round-trip
-   hypothesis.  F = [value_ok]: every object's class is defined at module level under a well-formed name and is what its
-   module binds under that name.  Modelled, not proved: json.loads (json.dumps j) = j ([json_text]). *)
+   hypothesis.  F = [value_ok]: no object's class is defined inside a function ("<locals>" in its qualified name), and every
+   class is named by its own tag: the C19 decision table, read on the world, resolves "<module>.<qualified name>" to the
+   class itself (module-level classes and classes nested in classes alike, since 70c605d).
+   Modelled, not proved: json.loads (json.dumps j) = j ([json_text]).  _resolve_enclosing_class: hand model + source pin. *)
 From Coq Require Import List ZArith Bool.
-From Krrood Require Import Base.Sx Json.JsonVal Json.SerializerSpec Gen.JsonResolve Json.Serializer Json.SerializerProofs.
+From Krrood Require Import Base.Sx Json.JsonVal Json.ResolveSpec Json.SerializerSpec Gen.JsonResolve Json.Serializer Json.SerializerProofs.
 Import ListNotations.
 Open Scope Z_scope.
 
@@ -41,46 +43,60 @@ Theorem C18_model_is_spec :
     value_ok w v = true -> plain_payloads v = true -> model_round_trip w v = spec_round_trip v.
 Proof. exact sample_model_is_spec. Qed.
 
-(* F in words: defined at module level, under a dot-free name, in a module with a well-formed name, in a world where no
-   two module-level classes of one module share a name *)
-Theorem C18_fragment_is_module_level :
+(* F in words.  A class satisfies [cls_ok] when: the world has no two classes of one module under one qualified name; the
+   class is defined in it, is a serialiser or registered class, not function-local; its module name is non-empty and not
+   relative; the names on its qualified path are dot-free; every enclosing class is defined in the world; and -- the premise
+   that the longest-importable-prefix rule needs -- NO MODULE IS NAMED LIKE A CLASS PATH of it ("m.Outer" next to class Outer
+   of module m would be imported in place of the class) *)
+Theorem C18_fragment_is_named_classes :
   forall (w : world) (c : cls),
-    unique_names w -> In c w -> module_level c = true -> valid_module_name (c_mod c) = true -> no_sep DOT (cname c) = true ->
-    cls_ok w c = true.
-Proof. exact cls_ok_defined. Qed.
+    unique_names w -> In c w -> module_part_ok (c_mod c) = true -> dot_free (c_qual c) -> c_qual c <> [] ->
+    enclosing_classes_defined w c -> no_module_named_like_class_path w c ->
+    c_kind c <> KPlain -> is_local c = false -> cls_ok w c = true.
+Proof. exact named_classes_are_ok. Qed.
 
-(* outside F the statement is false -- known finding C18-a: the tag is built from __name__, so a serialiser class
-   nested in another class cannot be found again ... *)
-Theorem C18_refuted_nested_class :
-  in_grammar v_inner = true /\
-  round_trip jv s_ufields s_usplit s_rser s_rdeser [c_outer; c_inner] 5 v_inner = Some (RaiseJ ClassNotFoundError).
-Proof. exact nested_class_not_found. Qed.
+(* regression examples for the former finding C18-a (fixed by 70c605d): a serialiser class nested in another class now
+   round-trips, is not confused with a module-level class of the same __name__, and is tagged with its qualified name *)
+Example C18_regression_nested_class :
+  value_ok [c_outer; c_inner] v_inner = true /\
+  round_trip jv s_ufields s_usplit s_rser s_rdeser [c_outer; c_inner] 5 v_inner = Some (Return v_inner).
+Proof. exact nested_class_round_trips. Qed.
 
-(* ... or comes back as an instance of a different class when the module binds the same __name__ *)
-Theorem C18_refuted_nested_shadow :
-  in_grammar v_inner = true /\
-  round_trip jv s_ufields s_usplit s_rser s_rdeser [c_outer; c_inner; c_shadow] 5 v_inner
-  = Some (Return (VObj c_shadow (JInt 3) [])).
-Proof. exact nested_class_wrong_type. Qed.
+Example C18_regression_nested_shadow :
+  value_ok [c_outer; c_inner; c_shadow] v_inner = true /\
+  round_trip jv s_ufields s_usplit s_rser s_rdeser [c_outer; c_inner; c_shadow] 5 v_inner = Some (Return v_inner).
+Proof. exact nested_class_not_shadowed. Qed.
 
-Theorem C18_refuted_tag_not_qualified :
+Example C18_regression_tag_qualified :
   exists d, to_json jv s_ufields s_rser v_inner = Return (JObj d) /\
-            dict_get d JSON_TYPE_NAME = Some (JStr [109; 46; 73]) /\ qualified_tag c_inner = [109; 46; 79; 46; 73].
-Proof. exact nested_class_tag_not_qualified. Qed.
+            dict_get d JSON_TYPE_NAME = Some (JStr [109; 46; 79; 46; 73]) /\ qualified_tag c_inner = [109; 46; 79; 46; 73].
+Proof. exact nested_class_tag_qualified. Qed.
 
-(* non-vacuity: a value with a subclass chain in a dotted module, a registered type, unicode, 2^70, +inf, empty lists
+(* outside F the statement is false -- known finding C18-b: an instance of a serialiser class defined inside a function is a
+   value of the statement's grammar, but it is refused at to_json (no importable name exists for such a class);
+   for every such class, every payload, children and user code: *)
+Theorem C18_refuted_local_class :
+  forall (P : Type) ufields usplit rser rdeser (w : world) (c : cls) (own : P) (kids : list (value P)) (fuel : nat),
+    c_kind c = KSer -> is_local c = true ->
+    round_trip P ufields usplit rser rdeser w fuel (VObj c own kids) = Some (RaiseJ ClassNotSerializableError).
+Proof. exact local_class_refused. Qed.
+
+Example C18_refuted_local_class_witness :
+  in_grammar v_local = true /\
+  round_trip jv s_ufields s_usplit s_rser s_rdeser [c_local] 5 v_local = Some (RaiseJ ClassNotSerializableError).
+Proof. exact local_class_not_serializable. Qed.
+
+(* non-vacuity: a value with a subclass chain in a dotted module, a class nested in a class, a registered type, unicode, 2^70, +inf, empty lists
    satisfies F, and its round trip computes to itself *)
 Example C18_nonvacuous :
   value_ok w_sample v_sample = true /\
   round_trip jv s_ufields s_usplit s_rser s_rdeser w_sample 6 v_sample = Some (Return v_sample) /\
-  value_ok [c_outer; c_inner] v_inner = false.
+  value_ok [c_local] v_local = false.
 Proof. repeat split; vm_compute; reflexivity. Qed.
 
 Print Assumptions C18_round_trip.
 Print Assumptions C18_tag_present.
 Print Assumptions C18_sample_round_trip.
 Print Assumptions C18_model_is_spec.
-Print Assumptions C18_fragment_is_module_level.
-Print Assumptions C18_refuted_nested_class.
-Print Assumptions C18_refuted_nested_shadow.
-Print Assumptions C18_refuted_tag_not_qualified.
+Print Assumptions C18_fragment_is_named_classes.
+Print Assumptions C18_refuted_local_class.
